@@ -51,6 +51,12 @@ def gen_cases(rng, tier):
                 fr.append(p)
             coords.append(fr)
         cases.append({'m': m, 'res': res, 'coords': coords})
+    # coordinates within 1e-5 .. 1e-9 of a cell face (off the 2^-12 grid): the voxel is still floor(frac x grid size); oracle only
+    for _k in range({'quick': 6, 'thorough': 40, 'search': 3}[tier]):
+        m = synth.int_lattice(rng, rng.choice(KINDS))
+        near = [1 - 5e-6, 1 - 1e-7, 1 - 2e-5, 2 - 3e-6, -1e-6, 1e-6, 0.999999, 3e-9, 0.5 - 1e-7, 0.5 + 1e-7]
+        cases.append({'m': m, 'res': rng.choice([0.5, 1.0, 1.3]), 'coords': [],
+                      'fcoords': [[[rng.choice(near) if rng.random() < 0.6 else rng.random() for _ in range(3)] for _a in range(2)] for _t in range(4)]})
     # long runs: more samples in a single voxel than 16-bit (and, per axis sum, than a few 16-bit words) can count
     for _k in range({'quick': 2, 'thorough': 6, 'search': 1}[tier]):
         m = synth.int_lattice(rng, rng.choice(KINDS))
@@ -61,6 +67,8 @@ def gen_cases(rng, tier):
 
 
 def _coords(case):
+    if 'fcoords' in case:
+        return np.array(case['fcoords'], dtype=float)
     if 'long' not in case:
         return np.array(case['coords'], dtype=float) / DEN
     L = case['long']
@@ -80,7 +88,7 @@ def impl(case):
     guard = synth.InputGuard(trajectory=traj)
     vol = trajectory_to_volume(traj, resolution=res)
     changed = guard.changed()
-    if 'long' not in case and c.shape[0] >= 2:
+    if 'long' not in case and 'fcoords' not in case and c.shape[0] >= 2:
         # a continuation run is appended and the volume asked for again at the same resolution: every sample of the longer run is counted
         more = synth.make_traj(case['m'], ['Li'] * c.shape[1], c[::-1].copy())
         traj2 = synth.make_traj(case['m'], ['Li'] * c.shape[1], c)
@@ -130,6 +138,16 @@ def oracle(case, out):
     fs = synth.inputs_clause(out, 'trajectory_to_volume')
     dims = out['dims']
     data = np.array(out['data']).reshape(dims)
+    if 'fcoords' in case:
+        from fractions import Fraction
+        want = np.zeros(dims, dtype=np.int64)
+        for p in np.array(case['fcoords'], dtype=float).reshape(-1, 3):
+            q = [Fraction(float(x)) % 1 for x in p]                      # the exact value of the float, modulo 1
+            want[tuple(int(q[k] * dims[k]) for k in range(3))] += 1
+        if not np.array_equal(want, data):
+            w = tuple(int(v) for v in np.argwhere(want != data)[0])
+            fs.append(('volume/not-floor-voxel', f'coordinates next to cell faces, grid {dims}: voxel {w} holds {int(data[w])} samples, {int(want[w])} positions have floor(frac x grid size) there'))
+        return fs
     if 'long' in case:
         # long runs: expected counts computed vectorised from the case (the positions are exact multiples of 1/4096 inside the cell)
         allpos = np.rint(_coords(case).reshape(-1, 3) * DEN).astype(np.int64)
@@ -176,7 +194,7 @@ def oracle(case, out):
 
 
 def coq_term(case, out):
-    if 'data' not in out or _near_int(case, out) or 'long' in case:
+    if 'data' not in out or _near_int(case, out) or 'long' in case or 'fcoords' in case:
         return None       # long runs are decided by the oracle only (a literal of 10^5 samples is too large for the tie)
     pos = np.array(out['pos'])
     if not np.array_equal(pos, np.rint(pos)):
@@ -218,4 +236,4 @@ def classify(case, out):
 
 
 def sample(case, out):
-    return {'m': case['m'], 'res': out.get('res'), 'dims': out.get('dims'), 'coords0': case['coords'][0] if case['coords'] else case.get('long')}
+    return {'m': case['m'], 'res': out.get('res'), 'dims': out.get('dims'), 'coords0': case['coords'][0] if case['coords'] else case.get('long') or case.get('fcoords')}
